@@ -43,6 +43,9 @@ impl Future for Suspend {
 /// While false, a call whose argument contains the text "park" keeps yielding to the runtime (tokio probes only): an
 /// evaluation can be held suspended for as long as a scenario wants.
 pub static PARK_RELEASE: std::sync::atomic::AtomicBool = std::sync::atomic::AtomicBool::new(true);
+/// Only the first such call after this was set to true is held (so that a second evaluation that wrongly reaches the same
+/// call runs on and shows its wrong result instead of waiting as well).
+pub static PARK_ONCE: std::sync::atomic::AtomicBool = std::sync::atomic::AtomicBool::new(false);
 
 pub struct Probe {
     pub name: &'static str,
@@ -70,7 +73,7 @@ impl UserFunction for Probe {
             for _ in 0..self.suspend {
                 tokio::task::yield_now().await;
             }
-            if key.1.contains("\"park\"") {
+            if key.1.contains("\"park\"") && PARK_ONCE.swap(false, std::sync::atomic::Ordering::SeqCst) {
                 while !PARK_RELEASE.load(std::sync::atomic::Ordering::SeqCst) {
                     tokio::task::yield_now().await;
                 }
